@@ -530,6 +530,7 @@ C10(c, o) ==
       \cup UNION { IF GlamTy(c.S, [ k |-> "struct", name |-> evs[i].struct ]) THEN EncaseFails(c.S, evs[i]) ELSE {} : i \in DOMAIN evs } ]
 
 (* ------------------------------------------------------------------ C12 *)
+ArrayLenOverride(S) == \E i \in DOMAIN S.globals : S.globals[i].ty.k = "array" /\ Has(S.globals[i].ty, "len")
 WgOverride(S) == \E i \in DOMAIN S.entries : S.entries[i].stage = "compute" /\ \E w \in Range(S.entries[i].wg) : \E k \in DOMAIN S.overrides : S.overrides[k].name = w
 C12(c, o) ==
   IF HasS(c) /\ ValidAll(o) /\ RetOk(o) /\ RejectedAbout(o, "override")
@@ -545,7 +546,8 @@ C12(c, o) ==
           "fields of OverrideConstants are " \o ToJson([ i \in DOMAIN fs |-> [ name |-> fs[i].name, ty |-> fs[i].ty ] ]) \o " for overrides " \o ToJson([ i \in DOMAIN S.overrides |-> [ name |-> S.overrides[i].name, ty |-> CO!FieldType(S.overrides[i]) ] ]))
       \cup { "OverrideConstants cannot be used as documented: " \o m : m \in ProbeFail(o, "overrides") }
       \cup (IF ProbeFail(o, "overrides") = {} /\ [ i \in DOMAIN fs |-> fs[i].name ] = [ i \in DOMAIN S.overrides |-> S.overrides[i].name ] THEN
-              Chk(Len(runs) > 0 /\ Len(res) = Len(runs), "PROJ constants() was not exercised")
+              (* an override that sizes a workgroup array makes naga's own override resolution overflow on the probe's extreme values: only the map is judged then *)
+              Chk((Len(runs) > 0 /\ Len(res) = Len(runs)) \/ ArrayLenOverride(S), "PROJ constants() was not exercised")
               \cup UNION { Chk(CO!MapOk(S, runs[i].assign, runs[i].map), "constants() returned " \o ToJson(runs[i].map) \o " for the assignment " \o ToJson(runs[i].assign) \o "; expected " \o ToJson(CO!ExpectedMap(S, runs[i].assign))
                                                                                \o (IF CP!ConstShadowsLocal(S) THEN " [predicted=[\"ConstShadowsLocal\"]]" ELSE "")) : i \in DOMAIN runs }
               \cup (IF Len(res) = Len(runs) THEN
